@@ -1,7 +1,11 @@
 EXTRA_CLAIMS = {
+ "C16": dict(level="other", design="DESIGN.md §3 C16",
+   technique="contract-based deductive verification: Kani function-contract harnesses (inductive step from arbitrary bag states) on the real observation bags and pusher",
+   text="Partial (single-threaded accounting): every observation of magnitude m with batch size n lands in the first bucket whose bound is >= m (else the overflow bucket), count += n, sum += m*n; publishing (copy_from under the dirty-bitmap mirror invariant, incl. > 63 buckets), merging (sync and snapshot) and push's skip rule neither drop nor double-count. Checked per operation from arbitrary states with a concrete number of buckets (0,1,3; 65 in thorough) - bounded in the bucket count, unbounded in the history.",
+   note="Kani runs atomics sequentially: concurrent reports, thread teardown / archiving order and cross-thread totals are not decided."),
  "C18": dict(level="proof", design="DESIGN.md §3 C18",
    technique="contract-based deductive verification: Kani function-contract harnesses (loop-free, full domain) on the real GlobalAlloc wrapper and span arithmetic",
    text="For every layout, pointer, size and counter pre-state, each of the four GlobalAlloc methods forwards its arguments unchanged exactly once, returns the inner result and counts (requested size | full new size, 1) resp. nothing for frees on this thread; span = end - start; report totals are exact sums of spans. Loop-free harnesses over fully symbolic inputs: complete for one thread.",
    note="Kani executes atomics sequentially: totals racing with allocation on other threads are not decided. Registry-of-threads sums are checked for 1..2 threads (bounded)."),
 }
-EXTRA_PENDING = {k: "not yet claimed: the contract units for this property are still being built (see DESIGN.md build order); will be claimed or given its final not-applicable reason" for k in ["C07", "C08", "C15", "C16", "C20"]}
+EXTRA_PENDING = {k: "not yet claimed: the contract units for this property are still being built (see DESIGN.md build order); will be claimed or given its final not-applicable reason" for k in ["C07", "C08", "C15", "C20"]}
